@@ -676,4 +676,81 @@ Proof.
 Qed.
 End FixOtherFull.
 
+
+(* ------------------------------------------------------------------------------------------------ *)
+(* vector round trip: from_vector (tovec K) = K, exactly                                            *)
+(* ------------------------------------------------------------------------------------------------ *)
+Lemma firstn_len_app {A} (a b : list A) : firstn (length a) (a ++ b) = a.
+Proof. induction a as [|x a IH]; cbn; auto. now f_equal. Qed.
+Lemma skipn_len_app {A} (a b : list A) : skipn (length a) (a ++ b) = b.
+Proof. induction a as [|x a IH]; cbn; auto. Qed.
+
+Lemma length_concat_uniform {A} m (L : list (list A)) : Forall (fun l => length l = m) L ->
+  length (concat L) = (m * length L)%nat.
+Proof. induction 1 as [|l L Hl _ IH]; cbn; [lia|]. rewrite app_length, IH, Hl. lia. Qed.
+
+Lemma nth_concat_uniform {A} (d : A) m (L : list (list A)) i r : Forall (fun l => length l = m) L ->
+  i < m -> r < length L -> nth (i + m * r) (concat L) d = nth i (nth r L []) d.
+Proof.
+  intros HL Hi. revert r; induction HL as [|l L Hl _ IH]; intros r Hr; cbn in Hr; [lia|].
+  destruct r as [|r]; cbn [concat nth].
+  - rewrite Nat.mul_0_r, Nat.add_0_r. apply app_nth1. lia.
+  - rewrite app_nth2 by lia. rewrite Hl. replace (i + m * S r - m)%nat with (i + m * r)%nat by lia. apply IH. lia.
+Qed.
+
+Lemma cols_uniform (A : mat) R : Forall (fun l => length l = length A) (cols v0 A R).
+Proof. unfold cols. apply Forall_forall. intros l Hl. apply in_map_iff in Hl as (r & <- & _). unfold col. apply map_length. Qed.
+
+Lemma length_vec_factor R (A : mat) : length (vec_factor v0 R A) = (length A * R)%nat.
+Proof.
+  unfold vec_factor. rewrite (length_concat_uniform (length A)) by apply cols_uniform.
+  unfold cols. now rewrite map_length, seq_length.
+Qed.
+
+Lemma unvec_vec_factor R (A : mat) : Forall (fun row => length row = R) A ->
+  unvec_factor v0 (length A) R (vec_factor v0 R A) = A.
+Proof.
+  intros W. unfold unvec_factor.
+  transitivity (map (fun i => nth i A []) (seq 0 (length A))); [|apply map_nth_seq].
+  apply map_ext_in. intros i Hi. apply in_seq in Hi.
+  assert (HR : length (nth i A []) = R).
+  { rewrite Forall_forall in W. apply W. apply nth_In. lia. }
+  transitivity (map (fun r => nth r (nth i A []) v0) (seq 0 R)); [|rewrite <- HR; apply map_nth_seq].
+  apply map_ext_in. intros r Hr. apply in_seq in Hr.
+  unfold vec_factor. rewrite (nth_concat_uniform v0 (length A)); [|apply cols_uniform|lia|unfold cols; rewrite map_length, seq_length; lia].
+  unfold cols. rewrite (nth_indep _ [] (col v0 A 0)) by (rewrite map_length, seq_length; lia).
+  rewrite (map_nth (col v0 A)), seq_nth by lia. cbn [Nat.add]. unfold col.
+  rewrite (nth_indep _ v0 (nth r [] v0)) by (rewrite map_length; lia).
+  now rewrite (map_nth (fun row => nth r row v0)).
+Qed.
+
+Lemma unvec_vec_factors R (As : list mat) rest : Forall (fun A => Forall (fun row => length row = R) A) As ->
+  unvec_factors v0 (map (@nrows V) As) R (concat (map (vec_factor v0 R) As) ++ rest) = As.
+Proof.
+  induction 1 as [|A As HA _ IH]; cbn [map concat unvec_factors]; auto.
+  rewrite <- app_assoc. unfold nrows in *.
+  replace (length A * R)%nat with (length (vec_factor v0 R A)) by apply length_vec_factor.
+  rewrite firstn_len_app, skipn_len_app.
+  f_equal; [now apply unvec_vec_factor|exact IH].
+Qed.
+
+Lemma sum_nat_vec R (As : list mat) :
+  length (concat (map (vec_factor v0 R) As)) = (R * sum_nat (map (@nrows V) As))%nat.
+Proof.
+  induction As as [|A As IH]; cbn [map concat sum_nat fold_right]; [cbn; lia|].
+  rewrite app_length, IH, length_vec_factor. fold (sum_nat (map (@nrows V) As)). unfold nrows. lia.
+Qed.
+
+Lemma from_vector_tovec K : wf_k K -> k_from_vector v0 v1 (k_tovec v0 true K) (kshape K) true = K.
+Proof.
+  intros W. unfold k_from_vector, k_tovec. rewrite app_length, sum_nat_vec. fold (kshape K). fold (krank K).
+  replace (krank K + krank K * sum_nat (kshape K))%nat with (krank K * (sum_nat (kshape K) + 1))%nat by lia.
+  rewrite Nat.div_mul by lia. set (X := concat (map (vec_factor v0 (krank K)) (kfactors K))).
+  assert (F1 : firstn (krank K) (kweights K ++ X) = kweights K) by apply firstn_len_app.
+  assert (F2 : skipn (krank K) (kweights K ++ X) = X) by apply skipn_len_app.
+  rewrite F1, F2. unfold X.
+  pose proof (unvec_vec_factors (krank K) (kfactors K) [] W) as H. rewrite app_nil_r in H.
+  unfold kshape. rewrite H. now destruct K.
+Qed.
+
 End P8.
